@@ -471,23 +471,40 @@ func (b *backendPlaySessionHandler) handleAvailableCommands(p *packet.AvailableC
 }
 
 func filterNode(src brigodier.CommandNode, cmdSrc command.Source) brigodier.CommandNode {
+	return filterNodeSeen(src, cmdSrc, map[brigodier.CommandNode]brigodier.CommandNode{})
+}
+
+// filterNodeSeen copies src for cmdSrc. seen maps every source node visited so far to its copy
+// (nil while its redirect is still being resolved or if cmdSrc cannot use it), so that a redirect
+// to the root, to an ancestor or to an already copied node reuses that copy instead of copying
+// the target again, which would never terminate for cyclic redirects like "execute run".
+func filterNodeSeen(
+	src brigodier.CommandNode,
+	cmdSrc command.Source,
+	seen map[brigodier.CommandNode]brigodier.CommandNode,
+) brigodier.CommandNode {
+	if dest, ok := seen[src]; ok {
+		return dest
+	}
 	var dest brigodier.CommandNode
 	_, ok := src.(*brigodier.RootCommandNode)
 	if ok {
 		dest = &brigodier.RootCommandNode{}
 	} else {
+		seen[src] = nil
 		if !src.CanUse(command.ContextWithSource(context.Background(), cmdSrc)) {
 			return nil
 		}
 		builder := src.CreateBuilder().Requires(func(context.Context) bool { return true })
 		if src.Redirect() != nil {
-			builder.Redirect(filterNode(src.Redirect(), cmdSrc))
+			builder.Redirect(filterNodeSeen(src.Redirect(), cmdSrc, seen))
 		}
 		dest = builder.Build()
 	}
+	seen[src] = dest
 
 	src.ChildrenOrdered().Range(func(_ string, sourceChild brigodier.CommandNode) bool {
-		destChild := filterNode(sourceChild, cmdSrc)
+		destChild := filterNodeSeen(sourceChild, cmdSrc, seen)
 		if destChild != nil {
 			dest.AddChild(destChild)
 		}
